@@ -306,7 +306,10 @@ Notation string := String.string.
 Definition neutral : list (string * list string) := [
   (* zero-size helper; fastpath table, handle pointers and cache selectors fixed by init(); per-type fn cache;
      free lists *)
-  ("encoder", ["dh"; "fp"; "perType"; "h"; "hh"; "rtidFn"; "rtidFnNoExt"; "bytes"; "blist"; "slist"]);
+  (* side: role flag of the Handle's pooled side encoders; only markSide() sets it, sideEncode calls that on every
+     encoder it takes from the pool before use, and no user-constructed Encoder can reach it: never true on an
+     instance a user can Reset, always (re)set before a pooled one is used *)
+  ("encoder", ["dh"; "fp"; "perType"; "h"; "hh"; "rtidFn"; "rtidFnNoExt"; "bytes"; "side"; "blist"; "slist"]);
   (* same, plus: scratch buffers buf/b, fauxUnion n (written by DecodeNaked before it is read), string interner
      (a cache of equal strings), bufio/jsms fixed by init() from handle fields that may not change after first use *)
   ("decoder", ["dh"; "fp"; "perType"; "h"; "hh"; "rtidFn"; "rtidFnNoExt"; "bytes"; "bufio"; "jsms"; "buf"; "b"; "n"; "is"; "blist"]);
